@@ -253,7 +253,7 @@ fn server_family(ctx: &mut Ctx) {
     let quick = ctx.quick();
     let mut p = P08::new(2, 2);
     p.pieces = vec![Piece::Expect, Piece::Get];
-    hist::dfs(ctx, &mut p, if quick { 7 } else { 9 }, 3, "C13:server", 6);
+    hist::dfs(ctx, &mut p, if quick { 9 } else { 12 }, 3, "C13:server", 6);
     let mut p = P08::new(3, 4);
     p.pieces = vec![Piece::Expect, Piece::Put, Piece::Get, Piece::Two];
     p.sizes = vec![Size::Small, Size::Medium];
